@@ -221,6 +221,33 @@ def generate(rng, tier, cls):
                         'value': {'$bytes': make_diff(
                             rng, enc, kind, False).hex()}})
 
+    if fkinds and rng.chance(0.15):
+        # the same file's diff replaced several times by another diff of
+        # exactly the same length, statistics regenerated each time
+        key = rng.choice(sorted(fkinds))
+
+        for _ in range(rng.randint(2, 4)):
+            ops.append({'op': 'generate_stats', 'tree': tn,
+                        'path': rng.choice([[], list(key)])})
+            ops.append({'op': 'tweak', 'tree': tn, 'path': list(key),
+                        'attr': 'diff', 'how': 'swap_signs'})
+
+        ops.append({'op': 'generate_stats', 'tree': tn, 'path': []})
+
+    if fkinds and rng.chance(0.12):
+        # a file section copied (after its statistics were generated) into
+        # another change, the copy's diff edited, statistics regenerated
+        key = rng.choice(sorted(fkinds))
+        ops.append({'op': 'generate_stats', 'tree': tn, 'path': []})
+        ops.append({'op': 'clone_file', 'tree': tn, 'from': tn,
+                    'path': list(key), 'change': rng.below(nch),
+                    'how': rng.choice(['deepcopy', 'pickle'])})
+        ops.append({'op': 'tweak', 'tree': tn,
+                    'path': [ops[-1]['change'], -1], 'attr': 'diff',
+                    'how': 'swap_signs'})
+        ops.append({'op': 'generate_stats', 'tree': tn,
+                    'path': rng.choice([[], [ops[-2]['change'], -1]])})
+
     if rng.chance(0.5):
         ops.append(dict(ops[-1]) if ops[-1]['op'] == 'generate_stats'
                    else {'op': 'generate_stats', 'tree': tn, 'path': []})
